@@ -88,6 +88,7 @@ PROPS = {
         "module": "core", "pkg": "./checks", "level": "exploration",
         "jobs": [
             {"test": "TestC05B", "quick": 500, "thorough": 14000, "shards_thorough": 14},
+            {"test": "TestC05S", "quick": 600, "thorough": 40000, "shards_thorough": 14},
         ],
         "rule": "Level B: real bls.TBLS / ps.TPS backends driven through Init/OnMsg/KeyGen over the simulated network with an ideal broadcast; one "
                 "participant is a puppet whose outgoing traffic is rewritten by a strategy drawn from a catalogue of 19 deviations (off-polynomial / "
@@ -97,8 +98,12 @@ PROPS = {
                 "the virtual deadline without panic; those that succeed report identical public material, their published key matches their share and "
                 "every t-subset of them signs validly under the reported key (PS: blind-sign-unblind-prove-verify); no honest reveal is emitted before "
                 "commitments of all n-1 others were handed to that party. Non-trivial = a deviating message was handed to an honest backend or a message "
-                "was withheld. Distinct = hash of the whole case.",
-        "assumptions": COMMON_ASSUME + ["ideal broadcast at this level (different values to different parties are the reliable-broadcast layer's business, C02)"],
+                "was withheld. Distinct = hash of the whole case. Level S (TestC05S, 'different values shown to different parties'): real LoudScheme / "
+                "SilentScheme with the real synchroniser, broadcast layer and BLS / PS DKG (n in 3..4, t mostly = n); the misbehaving participant runs two "
+                "honest DKG instances behind its one identifier and shows instance B (everything / only commitment and revealed key / only the revealed "
+                "key) to a generated victim set and instance A to the others, under a generated schedule; same consistency oracle over the honest "
+                "parties' KeyGen results (consistent or error, never a split). Non-trivial there = the honest parties were really shown different instances.",
+        "assumptions": COMMON_ASSUME + ["Level B uses an ideal broadcast; Level S goes through the real broadcast layer"],
     },
     "C10": {
         "module": "core", "pkg": "./checks", "level": "exploration",
@@ -109,6 +114,7 @@ PROPS = {
             {"test": "TestC10Crypto", "quick": 6000, "thorough": 400000, "shards_thorough": 14},
             {"test": "TestC05B", "quick": 300, "thorough": 6000, "shards_thorough": 14},
             {"test": "TestC03R", "quick": 10000, "thorough": 200000, "shards_thorough": 14},
+            {"test": "TestC10Adapters", "module": "binance", "pkg": "./checks", "quick": 50, "thorough": 1600, "shards_thorough": 8},
         ],
         "rule": "Structure-aware hostile input. T1/T2: frames captured from a fault-free run of the configuration under test (loud / silent; BLS, PS, "
                 "scripted backend; KeyGen, Sign) are truncated, extended, bit-flipped, spliced, replaced by hostile constants sitting on the decoders' "
@@ -118,7 +124,12 @@ PROPS = {
                 "source, MPC traffic of a non-participant, foreign topic, idle/finished state) leaves the running honest session successful; a fresh "
                 "session afterwards succeeds. TestC10Hostile sweeps all hostile constants deterministically. T4 (rbc.Receiver) = TestC03R's Byzantine "
                 "scripts incl. short digests; T5 (DKG handlers) = TestC05B's malformed / structural strategies; T6: TPS.Sign, ps/bls Verifier.Init/Verify, "
-                "AggregateSignatures, Prover.UnBlind with byte-level and ASN.1-structure-level mutations of valid objects. Non-trivial = the input passed "
+                "AggregateSignatures, Prover.UnBlind with byte-level and ASN.1-structure-level mutations of valid objects. T8 (TestC10Adapters): frames of "
+                "a fault-free run of the tss-lib adapters (EdDSA live, ECDSA from key fixtures; key generation and signing) replayed, byte-mutated or "
+                "altered inside a valid protobuf envelope (other type URL, other content, empty / truncated content), under the genuine sender, another "
+                "member or a non-member, singly or as bursts of up to 1100 copies, into a party that is initialised but not running, running, or "
+                "finished: ClassifyMsg/OnMsg return without panic within 20 s, the running call returns by its deadline, input from non-members "
+                "(below the queue capacity) leaves the session successful. Non-trivial = the input passed "
                 "the first validation step of its entry point (live topic and minimal length / outer ASN.1 decoder). Distinct = hash of case / input.",
         "assumptions": COMMON_ASSUME + ["explicit panics on local API misuse (rule 2 of DESIGN 2.10) are not inputs from the network and are not generated"],
     },
